@@ -66,8 +66,11 @@ theorem free_nrDone (x : Th) : free (nrDone x).pc = true := by
   unfold nrDone; split
   · exact free_tsOk x
   · rfl
-theorem free_finDone (x : Th) : free (finDone x).pc = true := by
-  unfold finDone retWith; repeat' split
+theorem free_finDoneS (x : Th) : free (finDoneS x).pc = true := by
+  unfold finDoneS retWith; repeat' split
+  all_goals rfl
+theorem free_finDoneR (x : Th) : free (finDoneR x).pc = true := by
+  unfold finDoneR retWith; repeat' split
   all_goals rfl
 theorem free_deqDone (x : Th) : free (deqDone x).pc = true := by
   unfold deqDone retWith flushCall retPending; repeat' split
@@ -82,7 +85,8 @@ theorem free_probeDone (c : Cfg) (x : Th) (d : Nat) : free (probeDone c x d).pc 
   unfold probeDone retWith; repeat' split
   all_goals rfl
 theorem free_pollEntry (x : Th) : free (pollEntry x).pc = true := by
-  unfold pollEntry; split <;> rfl
+  unfold pollEntry retWith; repeat' split
+  all_goals rfl
 
 theorem pubDone_pc (x : Th) : (pubDone x).pc = .dDr ∨ (pubDone x).pc = .dId ∨ (pubDone x).pc = .fUnlock := by
   unfold pubDone; split <;> simp
@@ -103,7 +107,7 @@ theorem free_callTh (c : Cfg) (s : State) (x x0 : Th) (op : Op) : free (callTh c
 section LockSum
 attribute [local simp] inHead_of_free inSS_of_free inAS_of_free inSR_of_free inAR_of_free
   free_retWith free_retPending free_tsCall free_enterLoop free_parkSeqS free_parkSeqR free_deqCall free_flushCall
-  free_tsErr free_tsOk free_chkClosed free_chkOpen free_nrDone free_finDone free_deqDone free_scDone
+  free_tsErr free_tsOk free_chkClosed free_chkOpen free_nrDone free_finDoneS free_finDoneR free_deqDone free_scDone
   free_flushDone free_probeDone free_pollEntry inHead_pubDone inSS_pubDone inAS_pubDone inSR_pubDone inAR_pubDone
 
 set_option maxHeartbeats 4000000 in
